@@ -22,6 +22,7 @@ import (
 	"errors"
 	"fmt"
 	"io/fs"
+	"math/rand"
 	"os"
 	"path/filepath"
 	"strconv"
@@ -164,17 +165,24 @@ func (tmp *tmpfile) link() error {
 	// temp file into place for the object. This ensures the object semantics
 	// of last upload completed wins and is not some combination of writes
 	// from simultaneous uploads.
+	//
+	// An existing object is replaced by a rename over it, never by removing
+	// it first: a reader (or a restart after a crash) finds either the old
+	// or the new object under the name, never nothing.
 	objPath := filepath.Join(tmp.bucket, tmp.objname)
-	err := os.Remove(objPath)
-	if err != nil && !errors.Is(err, fs.ErrNotExist) {
-		return fmt.Errorf("remove stale path: %w", err)
-	}
-
 	dir := filepath.Dir(objPath)
 
-	err = backend.MkdirAll(dir, tmp.uid, tmp.gid, tmp.needsChown, tmp.newDirPerm)
+	err := backend.MkdirAll(dir, tmp.uid, tmp.gid, tmp.needsChown, tmp.newDirPerm)
 	if err != nil {
 		return fmt.Errorf("make parent dir: %w", err)
+	}
+
+	// an (empty) directory in the place of the object cannot be renamed over
+	if fi, err := os.Lstat(objPath); err == nil && fi.IsDir() {
+		err := os.Remove(objPath)
+		if err != nil && !errors.Is(err, fs.ErrNotExist) {
+			return fmt.Errorf("remove stale path: %w", err)
+		}
 	}
 
 	if !tmp.isOTmp {
@@ -194,21 +202,16 @@ func (tmp *tmpfile) link() error {
 	}
 	defer dirf.Close()
 
-	for {
-		err = unix.Linkat(int(procdir.Fd()), filepath.Base(tmp.f.Name()),
-			int(dirf.Fd()), filepath.Base(objPath), unix.AT_SYMLINK_FOLLOW)
-		if errors.Is(err, syscall.EEXIST) {
-			err := os.Remove(objPath)
-			if err != nil && !errors.Is(err, fs.ErrNotExist) {
-				return fmt.Errorf("remove stale path: %w", err)
-			}
-			continue
-		}
-		if err != nil {
-			return fmt.Errorf("link tmpfile (fd %q as %q): %w",
-				filepath.Base(tmp.f.Name()), objPath, err)
-		}
-		break
+	err = unix.Linkat(int(procdir.Fd()), filepath.Base(tmp.f.Name()),
+		int(dirf.Fd()), filepath.Base(objPath), unix.AT_SYMLINK_FOLLOW)
+	if errors.Is(err, syscall.EEXIST) {
+		// the name is taken: link the new inode next to the other temp
+		// files of the bucket (same filesystem) and rename it into place
+		err = tmp.linkAndReplace(procdir, objPath)
+	}
+	if err != nil {
+		return fmt.Errorf("link tmpfile (fd %q as %q): %w",
+			filepath.Base(tmp.f.Name()), objPath, err)
 	}
 
 	err = tmp.f.Close()
@@ -217,6 +220,34 @@ func (tmp *tmpfile) link() error {
 	}
 
 	return nil
+}
+
+// linkAndReplace gives the unnamed temp file a name in the bucket's temp
+// directory and renames it over objPath.
+func (tmp *tmpfile) linkAndReplace(procdir *os.File, objPath string) error {
+	tmpdir, err := os.Open(filepath.Join(tmp.bucket, metaTmpDir))
+	if err != nil {
+		return err
+	}
+	defer tmpdir.Close()
+
+	for {
+		name := fmt.Sprintf("%x.%v", sha256.Sum256([]byte(tmp.objname)), rand.Uint32())
+		err = unix.Linkat(int(procdir.Fd()), filepath.Base(tmp.f.Name()),
+			int(tmpdir.Fd()), name, unix.AT_SYMLINK_FOLLOW)
+		if errors.Is(err, syscall.EEXIST) {
+			continue
+		}
+		if err != nil {
+			return err
+		}
+		tempname := filepath.Join(tmp.bucket, metaTmpDir, name)
+		err = os.Rename(tempname, objPath)
+		if err != nil {
+			os.Remove(tempname)
+		}
+		return err
+	}
 }
 
 func (tmp *tmpfile) fallbackLink() error {
